@@ -13,6 +13,7 @@ CLAIMED = {
  'C19': ('frames with symbolic keys under symbolic operation sequences and iteration patterns, responses under symbolic next/next_back/nth patterns, each observation compared with a list model on every path', '4 C19'),
  'C12': ('every typed response conversion and result accessor on frames with symbolic field names, order, presence and values (numbers of any magnitude, any f64); a feasible path reaching a panic is the counterexample', '4 C12'),
  'C14': ('abstract song listings under symbolic entry/attribute choices encoded into frames and decoded by the real listing decoders; the result is compared with a reference decoder on every path', '4 C14'),
+ 'C16': ('abstract status/stats/count/list/playlist/sticker/channel/tagtype/update/replay-gain replies under symbolic presence, domains and order; every member compared with the value sent on every path', '4 C16'),
  'C06': ('every feasible path of Command::build/add_argument/escape_argument/CommandList::render for all argument byte vectors within '
          'the bounds is decided by z3 against a port of MPD\'s tokenizer; known escaping defects are excluded by class and re-confirmed', '4 C06'),
 }
